@@ -3,6 +3,7 @@
 //   term             termination stream: every iterative routine on degenerate inputs, subprocess + deadline -> term.json
 //   termchild:<i>    (internal) run case i of the file given by --replay, print the result as JSON
 //   recycle[:corpus] recycled-InSitu call sequences (round 6) -> recycle_*.v, recycle.anomalies.json
+//   gj               round 7: gaussJordan.Run shape guards on both paths -> gj_*.v, gj.anomalies.json
 //   qrstep           bit-exact traces of the public qrAlgorithm.QRstep on 2x2 blocks -> qr_*.v
 //   --replay <file>  re-execute the call / termination case stored in a replay file
 package main
@@ -27,6 +28,8 @@ func main() {
 		runTermChild(opts, i)
 	case opts.Extra == "term":
 		runTermParent(opts, termCases(opts), "term")
+	case opts.Extra == "gj":
+		runGJStream(opts, gjCalls(), "gj")
 	case opts.Extra == "qrstep":
 		runQRTrace(opts)
 	case strings.HasPrefix(opts.Extra, "recycle") && opts.Replay == "":
@@ -78,6 +81,7 @@ func replay(opts Opts) {
 		Call  *Call  `json:"call"`
 		TCase *TCase `json:"tcase"`
 		RSeq  *RSeq  `json:"rseq"`
+		GJ    *GJCall `json:"gjcall"`
 	}
 	if err := json.Unmarshal(b, &rp); err != nil {
 		Die("replay: %v", err)
@@ -90,6 +94,10 @@ func replay(opts Opts) {
 	case rp.TCase != nil:
 		runTermParent(opts, []TCase{*rp.TCase}, "replay_term")
 		ab, _ := os.ReadFile(filepath.Join(opts.Out, "replay_term.json"))
+		fmt.Println(string(ab))
+	case rp.GJ != nil:
+		runGJStream(opts, []GJCall{*rp.GJ}, "replay_gj")
+		ab, _ := os.ReadFile(filepath.Join(opts.Out, "replay_gj.anomalies.json"))
 		fmt.Println(string(ab))
 	case rp.RSeq != nil:
 		runRecycle(opts, []RSeq{*rp.RSeq}, "replay_recycle")
